@@ -40,7 +40,9 @@ package hydra
 //@   guarded_by cond: ready
 //@   invariant[cond_set] self.cond != nil
 //@ func (*hydra).getSwamp(h, n) (s)
-//@   opaque
+//@   property C18
+//@   ensures[one_lookup_in_the_registry_of_live_instances] calls("Map.Load") == old(calls("Map.Load")) + 1 && calls("Map.Store") == old(calls("Map.Store")) && calls("Map.Delete") == old(calls("Map.Delete"))
+//@   ensures[the_registered_instance_or_nothing] isnil(s) || (lastretb("Map.Load", 1) && ipay(s) == ipay(lastret("Map.Load")))
 // createNewSwamp (properties C21, C20, C16, C18): the instance is built with the settings the settings
 // store resolves for exactly this name (one lookup), its data folder is the hashed path of this name for
 // this island, under the configured root / depth / fan-out; a swamp whose resolved type is permanent gets
